@@ -31,11 +31,12 @@ OnlyPath == {"pathbadger"}
 OnlyBadger == {"badger"}
 VOne == {1}
 VTwo == {1, 2}
-AllExcuses == {"retry-same-version", "visible-after-abort", "done-after-abort", "crash-after-finalize-meta", "deep"}
+AllExcuses == {"retry-same-version", "visible-after-abort", "crash-after-finalize-meta", "deep"}
+WithDone == AllExcuses \cup {"done-after-abort"}
 NoExcuse == {}
 ExceptRetry == AllExcuses \ {"retry-same-version"}
 ExceptVisible == AllExcuses \ {"visible-after-abort"}
-ExceptDone == AllExcuses \ {"done-after-abort"}
+ExceptDone == AllExcuses    \* with RestorerFixed = FALSE: the pinned restorer needs the done-after-abort excuse
 ExceptCrashFin == AllExcuses \ {"crash-after-finalize-meta"}
 ExceptDeep == AllExcuses \ {"deep"}
 =============================================================================
